@@ -2453,6 +2453,7 @@ def _make_promotion_decls(
             c_type=cpp_type,
             expr=_default_value_for_type(cpp_type),
             global_scope=scope == "setup" and depth == 0,
+            placeholder=True,
         )
         if decl.global_scope:
             if all(existing.name != name for existing in globals_list):
@@ -2473,7 +2474,10 @@ def _rewrite_nodes(nodes: List[object], promoted: Set[str]) -> List[object]:
     rewritten: List[object] = []
     for node in nodes:
         if isinstance(node, VarDecl) and node.name in promoted:
-            rewritten.append(VarAssign(name=node.name, expr=node.expr))
+            if not node.placeholder:
+                rewritten.append(VarAssign(name=node.name, expr=node.expr))
+            # a placeholder is superseded by the declaration further out; turning it into
+            # an assignment would reset the variable every time control passes here
             continue
         if isinstance(node, IfStatement):
             new_branches = [
